@@ -12,7 +12,7 @@ use surrealkv::verif::sstable as vs;
 
 const MAX_SEQ: u64 = (1 << 56) - 1;
 
-fn key_pool(r: &mut Rng) -> Vec<Vec<u8>> {
+pub fn key_pool(r: &mut Rng) -> Vec<Vec<u8>> {
     let mut pool: Vec<Vec<u8>> = vec![
         vec![0x00],
         vec![0x00, 0x00],
@@ -45,7 +45,7 @@ fn key_pool(r: &mut Rng) -> Vec<Vec<u8>> {
     pool
 }
 
-fn value(r: &mut Rng, tag: u64) -> Vec<u8> {
+pub fn value(r: &mut Rng, tag: u64) -> Vec<u8> {
     match r.below(10) {
         0 => vec![],
         1..=5 => format!("v{tag}").into_bytes(),
@@ -294,8 +294,8 @@ pub fn exec(a: &Args) -> i32 {
                     let n = |i: usize| w.get(i).and_then(|s| s.parse::<usize>().ok()).unwrap_or(0);
                     cfg = (n(2), n(3), n(4), n(5) == 1, n(6) == 1);
                     ents.clear();
+                    cur = None; // cursors borrow the table: drop them first
                     tbl = None;
-                    cur = None;
                     "-".into()
                 }
                 Some("ent") => {
@@ -307,6 +307,7 @@ pub fn exec(a: &Args) -> i32 {
                 }
                 Some("layout") => match vs::build(&ents, cfg) {
                     Ok(t) => {
+                        cur = None;
                         let s = layout_str(&t);
                         tbl = Some(t);
                         s
